@@ -353,7 +353,13 @@ func runC02(c *Ctx) {
 		ref2, _ := c02Deliver(c02Packets(body, nil, nil, false), "writepacket", nil)
 		if len(refOut.d.Errs) > 0 || len(refOut.d.Dumps) == 0 {
 			r.Count("responses_discarded_reference_not_clean", 1)
-			r.Note("response %s discarded: reference delivery has errors %v / %d packages", resp.Name, refOut.d.Errs, len(refOut.d.Dumps))
+			{
+				// a catalogue response is a valid server response (harness
+				// encoder, trusted base): if even its plain delivery - one
+				// packet, one read - errors or delivers nothing there is no
+				// "same packages as in a single packet" to speak of
+				r.Violate("reference-delivery-not-clean", fmt.Sprintf("response %s (%d bytes, package kinds %v) arriving in one packet and one read: delivered %v, errors %.300v", resp.Name, n, resp.Kinds, refOut.d.Types, refOut.d.Errs), c02Case{Resp: resp.Name, BodyHex: hex.EncodeToString(body), Family: "reference", Via: "reader", Bounds: resp.Bounds()})
+			}
 			continue
 		}
 		if !sameStrings(ref2.d.Dumps, refOut.d.Dumps) {
